@@ -489,7 +489,7 @@ func TestC11(t *testing.T) {
 	// every app sequence up to the bound
 	maxLen := 3
 	if !rec.Quick() {
-		maxLen = 4
+		maxLen = 5
 	}
 	var seqs [][]int
 	var build func(cur []int)
@@ -520,7 +520,7 @@ func TestC11(t *testing.T) {
 	rec.Exhaustive("exhaustive")
 	// several connections on one state machine, in every order
 	orders := permutations(4)
-	rec.Suite("several-connections", len(orders)*rec.N(2, 20), func(c *ev.Case) {
+	rec.Suite("several-connections", len(orders)*rec.N(2, 100), func(c *ev.Case) {
 		o := orders[c.I%len(orders)]
 		c.Class("several-connections/first=%d", o[0])
 		leak := runBubbleWD(t, rec, c, 60*time.Second, func() { runC11Multi(c, ctx, o) })
@@ -529,7 +529,7 @@ func TestC11(t *testing.T) {
 		}
 	})
 	// random multisets up to 12
-	rec.Suite("random", rec.N(2000, 100000), func(c *ev.Case) {
+	rec.Suite("random", rec.N(2000, 1000000), func(c *ev.Case) {
 		r := c.R
 		cc := c11Case{host: r.IntN(8) != 0, realm: r.IntN(8) != 0, inband: r.IntN(4) - 1, nAddrs: r.IntN(3), ipv6: r.IntN(2) == 0, zeroIDs: r.IntN(4) == 0}
 		if cc.inband > 1 {
